@@ -26,6 +26,9 @@ enum Unavail {
     Directory,
     ForeignContainer,
     ForeignBarePack,
+    /// its file is gone and its recorded location was rewritten to the file of ANOTHER listed
+    /// pack that is available: two packs recorded at one location, the file holds one of them
+    PointsToOtherPack,
 }
 
 pub struct C11;
@@ -51,7 +54,7 @@ impl Property for C11 {
     fn cases(tier: Tier) -> u32 {
         match tier {
             Tier::Quick => 1200,
-            Tier::Thorough => 20000,
+            Tier::Thorough => 100000,
         }
     }
 
@@ -61,13 +64,13 @@ impl Property for C11 {
             packaging_strategy(),
             comp_strategy(),
             nonempty_seq.clone(),
-            prop::collection::vec((comp_strategy(), nonempty_seq).prop_map(|(comp, contents)| ExtraPack { comp, contents }), 0..=2),
+            prop::collection::vec((comp_strategy(), nonempty_seq, prop_oneof![3 => Just(0u8), 1 => 1u8..5]).prop_map(|(comp, contents, id_class)| ExtraPack { comp, contents, id_class }), 0..=2),
             dir_strategy(SizeClass::Small, SortMode::Sometimes, false, true),
         )
             .prop_map(|(packaging, comp, contents, mut extra, dir)| {
                 if packaging == Packaging::OneFile && extra.is_empty() {
                     // at least one separate pack
-                    extra.push(ExtraPack { comp: Comp::None, contents: contents.iter().take(2).cloned().collect() });
+                    extra.push(ExtraPack { comp: Comp::None, contents: contents.iter().take(2).cloned().collect(), id_class: 0 });
                 }
                 Case { packaging, comp, contents, extra, dir }
             })
@@ -75,7 +78,7 @@ impl Property for C11 {
     }
 
     fn required_classes(_tier: Tier) -> Vec<&'static str> {
-        vec!["damaged-present-pack-detected", "separate-packs:1", "separate-packs:2", "separate-packs:3", "kind:Deleted", "kind:Directory", "kind:ForeignContainer", "kind:ForeignBarePack", "some-available-some-not", "all-unavailable", "main-pack-unavailable"]
+        vec!["damaged-present-pack-detected", "separate-packs:1", "separate-packs:2", "separate-packs:3", "kind:Deleted", "kind:Directory", "kind:ForeignContainer", "kind:ForeignBarePack", "kind:PointsToOtherPack", "some-available-some-not", "all-unavailable", "main-pack-unavailable"]
     }
 
     fn case_timeout_s(_tier: Tier) -> u64 {
@@ -123,7 +126,7 @@ impl Property for C11 {
         ensure!(!separate.is_empty(), "harness-no-separate-pack", "harness: no separate content pack in this case");
         info.class(format!("separate-packs:{}", separate.len()));
         let max_id = m.pack_infos.iter().map(|p| p.pack_id).max().unwrap();
-        let kinds = [Unavail::Deleted, Unavail::Directory, Unavail::ForeignContainer, Unavail::ForeignBarePack];
+        let kinds = [Unavail::Deleted, Unavail::Directory, Unavail::ForeignContainer, Unavail::ForeignBarePack, Unavail::PointsToOtherPack];
         let mut scenarios: Vec<Vec<Option<Unavail>>> = vec![];
         for subset in 1u32..(1 << separate.len()) {
             for k in kinds {
@@ -132,15 +135,29 @@ impl Property for C11 {
         }
         // one mixed assignment
         scenarios.push((0..separate.len()).map(|i| Some(kinds[i % 4])).collect());
+        // relocation needs an available pack to point at: drop the scenarios where none is left
+        scenarios.retain(|sc| !sc.iter().any(|u| *u == Some(Unavail::PointsToOtherPack)) || sc.iter().any(|u| u.is_none()));
         let mut evals = 0u64;
         let mut nontrivial_scenarios = 0;
         for (si, sc) in scenarios.iter().enumerate() {
             let d = ctx.subdir("c11-run");
             copy_dir(&base, &d);
-            for (p, u) in separate.iter().zip(sc.iter()) {
+            // the location each separate pack is expected to be reported with
+            let mut expected_loc: Vec<Vec<u8>> = separate.iter().map(|p| p.location.clone()).collect();
+            for (k, (p, u)) in separate.iter().zip(sc.iter()).enumerate() {
                 let loc = String::from_utf8(p.location.clone()).unwrap();
                 let path = d.join(&loc);
                 match u {
+                    Some(Unavail::PointsToOtherPack) => {
+                        std::fs::remove_file(&path).unwrap();
+                        let other = separate.iter().zip(sc.iter()).find(|(_, u)| u.is_none()).map(|(p, _)| p.location.clone()).unwrap();
+                        let new_loc = String::from_utf8(other.clone()).unwrap();
+                        match jbk::tools::set_location(d.join("a.jbk"), uuid::Uuid::from_bytes(p.uuid), new_loc.as_str().into()) {
+                            Ok(Some(_)) => {}
+                            other => fail!("harness-set-location", "set_location while preparing the scenario: {:?}", other.map(|o| o.is_some()).map_err(|e| e.to_string())),
+                        }
+                        expected_loc[k] = other;
+                    }
                     None => {}
                     Some(Unavail::Deleted) => std::fs::remove_file(&path).unwrap(),
                     Some(Unavail::Directory) => {
@@ -175,14 +192,15 @@ impl Property for C11 {
                 let pid = a.pack_id.into_u16();
                 let got = read_content(&c, *a);
                 if unavailable(pid) {
-                    let p = separate.iter().find(|p| p.pack_id == pid).unwrap();
+                    let k = separate.iter().position(|p| p.pack_id == pid).unwrap();
+                    let p = separate[k];
                     match got {
                         ContentRead::Missing { pack_id, uuid, location } => {
                             ensure!(
-                                pack_id == pid && uuid == p.uuid && location.as_bytes() == p.location.as_slice(),
+                                pack_id == pid && uuid == p.uuid && location.as_bytes() == expected_loc[k].as_slice(),
                                 "missing-wrong-info",
                                 "scenario {si}: content {a:?}: MISSING carries (id {pack_id}, location {location:?}), manifest says (id {pid}, location {:?})",
-                                String::from_utf8_lossy(&p.location)
+                                String::from_utf8_lossy(&expected_loc[k])
                             );
                             read_missing += 1;
                         }
@@ -205,7 +223,7 @@ impl Property for C11 {
                 }
                 evals += 1;
             }
-            for id in [max_id + 1, max_id + 2, u16::MAX] {
+            for id in [max_id.saturating_add(1), max_id.saturating_add(2), u16::MAX].into_iter().filter(|i| *i > max_id) {
                 match c.get_pack(id.into()) {
                     Ok(None) => {}
                     Ok(Some(_)) => fail!("pack-beyond-max", "scenario {si}: get_pack({id}) beyond the max id {max_id} answers a pack"),
